@@ -41,7 +41,7 @@ func (sc *metaScn) c07Check(st *metaStep) {
 	// is this step an acceptance of ownership by the actor?
 	transfer := false
 	if ar, ok := after.subs[st.actorU]; ok && sc.kind == "grp" && after.topic != nil {
-		if (ar.ModeWant&ar.ModeGiven).IsOwner() && !(actorRow.ModeWant & actorRow.ModeGiven).IsOwner() && after.topic.Owner == st.actorU {
+		if (ar.ModeWant & ar.ModeGiven).IsOwner() && !(actorRow.ModeWant & actorRow.ModeGiven).IsOwner() && after.topic.Owner == st.actorU {
 			transfer = true
 		}
 	}
